@@ -193,7 +193,13 @@ Inductive op :=
 | SetMaxLag (n : nat)
 | Copy
 | Orient (u v : tnode)                   (* CPDAG / PAG orient_uncertain_edge *)
-| HasEdge (i : nat) (u v : tnode).       (* query, no state change *)
+| HasEdge (i : nat) (u v : tnode)        (* query, no state change *)
+| AddVars (xs : list nat)                (* add_variables_from *)
+| RemoveVars (xs : list nat)             (* remove_variables_from: unknown and repeated names are ignored *)
+| AddNode (u : tnode)                    (* add_node: registers the whole variable; the lag must lie in the window *)
+| AddNodes (us : list tnode)             (* add_nodes_from, all-or-nothing *)
+| Bad.                                   (* a call with an argument outside the API's domain (None, a scalar for a node, a
+                                            non-integer lag, ...): raises, nothing changes *)
 
 Definition apply_op (s : state) (o : op) : result :=
   match o with
@@ -207,6 +213,11 @@ Definition apply_op (s : state) (o : op) : result :=
   | Copy => Ok s                          (* the history continues on the copy *)
   | Orient u v => orient s u v
   | HasEdge i u v => match query_has_edge s i u v with Some _ => Ok s | None => Raise end
+  | AddVars xs => Ok (fold_left add_var xs s)
+  | RemoveVars xs => Ok (fold_left remove_var xs s)
+  | AddNode u => if valid_node s u then Ok (add_var s (fst u)) else Raise
+  | AddNodes us => if forallb (valid_node s) us then Ok (fold_left add_var (map fst us) s) else Raise
+  | Bad => Raise
   end.
 
 (* (new state, raised?) ; a raise leaves the state unchanged *)
@@ -240,6 +251,11 @@ Definition sx_op (s : sx) : op :=
   | 6 => SetMaxLag (sx_nat (sx_nth s 1))
   | 8 => Orient (sx_node (sx_nth s 1)) (sx_node (sx_nth s 2))
   | 9 => HasEdge (sx_nat (sx_nth s 1)) (sx_node (sx_nth s 2)) (sx_node (sx_nth s 3))
+  | 10 => AddVars (sx_nats (sx_nth s 1))
+  | 11 => RemoveVars (sx_nats (sx_nth s 1))
+  | 12 => AddNode (sx_node (sx_nth s 1))
+  | 13 => AddNodes (map sx_node (sx_list (sx_nth s 1)))
+  | 14 => Bad
   | _ => Copy
   end.
 
